@@ -17,8 +17,17 @@ Definition MReads (p : program) (inp : inputs) (m d : node) : Prop :=
   exists e v l, alookup p m = Some e /\ evr (fun n x => MdlSpec p inp n x) e v l /\ In d l.
 
 Definition model_justified_g_statement_f : Prop :=
-  forall tord bord fuel pfuel p ops i j m, order_ok tord -> order_ok bord -> wf_model_g p -> Forall op_in_scope ops -> msessions_fuelled tord bord fuel pfuel p ops i ->
-    let rs := run_history_f tord bord fuel pfuel p init_state ops in
+  forall tord bord pord fuel pfuel p ops i j m, order_ok tord -> order_ok bord -> order_ok pord -> wf_model_g p -> Forall op_in_scope ops -> msessions_fuelled tord bord pord fuel pfuel p ops i ->
+    let rs := run_history_f tord bord pord fuel pfuel p init_state ops in
+    executed_at rs i m -> (j < i)%nat -> executed_at rs j m ->
+    (forall k, (j < k < i)%nat -> ~ executed_at rs k m) ->
+    exists d, MReads p (inputs_after (firstn (S j) ops)) m d /\
+              forall v, MdlSpec p (inputs_after (firstn (S j) ops)) d v ->
+                        ~ MdlSpec p (inputs_after (firstn (S i) ops)) d v.
+Definition model_justified_g_statement_op : Prop :=
+  forall tord bord pord p ops i j m, order_ok tord -> order_ok bord -> order_ok pord ->
+    wf_model_g p -> Forall op_in_scope ops -> model_sessions_fuelled_op tord bord pord p ops i ->
+    let rs := run_history_op tord bord pord p init_state ops in
     executed_at rs i m -> (j < i)%nat -> executed_at rs j m ->
     (forall k, (j < k < i)%nat -> ~ executed_at rs k m) ->
     exists d, MReads p (inputs_after (firstn (S j) ops)) m d /\
@@ -52,8 +61,8 @@ Proof.
 Qed.
 
 Definition model_justified_statement_f : Prop :=
-  forall tord bord fuel pfuel p ops i j m, order_ok tord -> order_ok bord -> wf_model p -> Forall op_in_scope ops -> msessions_fuelled tord bord fuel pfuel p ops i ->
-    let rs := run_history_f tord bord fuel pfuel p init_state ops in
+  forall tord bord pord fuel pfuel p ops i j m, order_ok tord -> order_ok bord -> order_ok pord -> wf_model p -> Forall op_in_scope ops -> msessions_fuelled tord bord pord fuel pfuel p ops i ->
+    let rs := run_history_f tord bord pord fuel pfuel p init_state ops in
     executed_at rs i m -> (j < i)%nat -> executed_at rs j m ->
     (forall k, (j < k < i)%nat -> ~ executed_at rs k m) ->
     exists d, MReads p (inputs_after (firstn (S j) ops)) m d /\
@@ -73,7 +82,7 @@ Proof. intro m. unfold leaf. destruct (nkind m); try (left; auto; fail); right; 
 
 Section Just.
 Variable p : program.
-Variables tord bord : state -> node -> list node -> list node.
+Variables tord bord pord : state -> node -> list node -> list node.
 Variable rk : node -> nat.
 Hypothesis Hrk : forall n e d, alookup p n = Some e -> In d (expr_reads e) -> (rk d < rk n)%nat.
 Hypothesis Hproj : forall n e d, alookup p n = Some e -> nkind n = KProjection -> In d (expr_reads e) ->
@@ -82,6 +91,7 @@ Hypothesis Htgt : forall n e d, alookup p n = Some e -> In d (expr_reads e) -> n
 Hypothesis Hkeys : forall n e, alookup p n = Some e -> is_mexec_kind (nkind n) = true.
 Hypothesis Htord : forall s x l y, In y (tord s x l) <-> In y l.
 Hypothesis Hbord : forall s x l y, In y (bord s x l) <-> In y l.
+Hypothesis Hpord : forall s x l y, In y (pord s x l) <-> In y l.
 Variables fuel pfuel : nat.
 
 (** the observations of a node verified in this epoch are from-scratch values *)
@@ -109,14 +119,14 @@ Lemma query_execs_inputs : forall inp n, apply_op inp (OQuery n) = inp.
 Proof. reflexivity. Qed.
 
 Lemma GInv_step : forall L s o s' r inp,
-  GInv L inp s -> op_in_scope o -> step_f tord bord fuel pfuel p s o = (s', r) ->
+  GInv L inp s -> op_in_scope o -> step_f tord bord pord fuel pfuel p s o = (s', r) ->
   (forall sets b, o = OSession sets b -> r_out r <> RFuel) ->
   GInv (Lnext L (env_step inp s o s') r) (env_step inp s o s') s' /\
   (forall m, get_info s m <> None -> get_info s' m <> None) /\
   (forall m, In m (r_execs r) -> get_info s' m <> None).
 Proof.
   intros L s o s' r inp [HB HG] Hsc H Hfuel.
-  pose proof (mstep_inv p tord bord rk Hrk Hproj Hkeys Htord Hbord _ _ _ _ _ _ _ HB H Hfuel) as HB'.
+  pose proof (mstep_inv p tord bord pord rk Hrk Hproj Hkeys Htord Hbord Hpord _ _ _ _ _ _ _ HB H Hfuel) as HB'.
   split; [split; [exact HB'|]|].
   - destruct o as [sets b|n|w v|].
     + (* session: the entries of the queries are not touched, nothing is executed *)
@@ -125,7 +135,7 @@ Proof.
       rewrite step_f_session in H. cbv zeta in H.
       destruct (fold_left fsess_step sets (set_ts (set_log s []) (s_ts (set_log s []) + 1)%N, [], []))
         as [[s1 rs] batch] eqn:Ef.
-      destruct (propagate pfuel (set_visited (set_stat s1 0%N) []) batch) as [s4| | |] eqn:Ep;
+      destruct (propagate_o pord pfuel (set_visited (set_stat s1 0%N) []) batch) as [s4| | |] eqn:Ep;
         inversion H; subst; try (exfalso; eapply Hfuel; eauto; reflexivity).
       intros m i Hi d x Hx. unfold Lnext. cbn [r_execs] in Er |- *. rewrite Er. cbn [nmem existsb].
       destruct (kind_eqb (nkind m) KInput) eqn:Ek.
@@ -140,11 +150,11 @@ Proof.
            ++ destruct Kl as [Kl|Kl]; rewrite Kl in K; discriminate.
         -- assert (Er2 : (if false then fold_left refresh_step (s_ext s1) (s1, batch) else (s1, batch)) = (s1, batch)) by reflexivity.
            destruct (session_MSess p rk Hrk Hproj inp s sets false s1 rs batch s1 batch s' HB Ef Er2) as [HS2 _].
-           rewrite (MSess_other _ _ _ _ _ _ m HS2 Ep Kl) in Hi. eapply HG; eauto.
+           rewrite (MSess_other _ _ _ _ _ _ _ m HS2 Ep Kl) in Hi. eapply HG; eauto.
     + cbn [env_step]. unfold step_f in H. cbn [op_in_scope] in Hsc.
-      destruct (query_for_o p None tord bord fuel [] CUser None n (set_log s [])) as [[[[o fr] ms] s1]| | |] eqn:Eq.
-      * destruct (root_query p tord bord rk Hrk Hproj Hkeys Htord Hbord _ _ _ _ _ _ _ _ HB Eq) as [HI1 _].
-        pose proof (proj1 (mmono_all p tord bord fuel) _ _ _ _ _ _ _ _ _ Eq) as HM.
+      destruct (query_for_o p None tord bord pord fuel [] CUser None n (set_log s [])) as [[[[o fr] ms] s1]| | |] eqn:Eq.
+      * destruct (root_query p tord bord pord rk Hrk Hproj Hkeys Htord Hbord Hpord _ _ _ _ _ _ _ _ HB Eq) as [HI1 _].
+        pose proof (proj1 (mmono_all p tord bord pord fuel) _ _ _ _ _ _ _ _ _ Eq) as HM.
         assert (Er : r_execs r = rev (s_log s1) /\ s' = s1) by (destruct o as [[z|]|]; inversion H; subst; auto).
         destruct Er as [Er ->]. intros m i Hi d x Hx. unfold Lnext. rewrite Er.
         destruct (nmem m (rev (s_log s1))) eqn:Em.
@@ -165,14 +175,14 @@ Proof.
         destruct (fold_left fsess_step sets (set_ts (set_log s []) (s_ts (set_log s []) + 1)%N, [], []))
           as [[s1 rs] batch] eqn:Ef.
         assert (Hs1 : get_info s1 m <> None) by (eapply sess_fold_stored; [exact Ef|exact Hm]).
-        destruct (propagate pfuel (set_visited (set_stat s1 0%N) []) batch) as [s4| | |] eqn:Ep;
+        destruct (propagate_o pord pfuel (set_visited (set_stat s1 0%N) []) batch) as [s4| | |] eqn:Ep;
           inversion H; subst; try exact Hs1.
-        apply propagate_same in Ep. destruct Ep as (N1 & _). unfold get_info. rewrite N1. exact Hs1.
-      * destruct (mstep_query_mono p tord bord fuel pfuel _ _ _ _ H) as [[-> _]|[HM _]]; [exact Hm|].
+        apply propagate_o_same in Ep. destruct Ep as (N1 & _). unfold get_info. rewrite N1. exact Hs1.
+      * destruct (mstep_query_mono p tord bord pord fuel pfuel _ _ _ _ H) as [[-> _]|[HM _]]; [exact Hm|].
         apply (mr_stored _ _ _ HM). exact Hm.
       * destruct Hsc.
       * cbn in H. inversion H. subst. exact Hm.
-    + intros m Hm. destruct (mstep_execs p tord bord fuel pfuel _ _ _ _ _ Hsc H Hm) as [[i [Hi Hv]] Hnv]. congruence.
+    + intros m Hm. destruct (mstep_execs p tord bord pord fuel pfuel _ _ _ _ _ Hsc H Hm) as [[i [Hi Hv]] Hnv]. congruence.
 Qed.
 
 Definition XReads (env : menv) (m d : node) : Prop :=
@@ -185,27 +195,27 @@ Proof. intros [a b] s o s' H. destruct o as [sets r|n|w v|]; cbn in *; [subst r;
 Lemma just_later : forall ops s inp L i m I0,
   GInv L inp s -> Forall op_in_scope ops ->
   (forall k sets b rk0, (k < i)%nat -> nth_error ops k = Some (OSession sets b) ->
-     nth_error (run_history_f tord bord fuel pfuel p s ops) k = Some rk0 -> r_out rk0 <> RFuel) ->
+     nth_error (run_history_f tord bord pord fuel pfuel p s ops) k = Some rk0 -> r_out rk0 <> RFuel) ->
   get_info s m <> None -> L m = I0 ->
-  (forall k, (k < i)%nat -> ~ executed_at (run_history_f tord bord fuel pfuel p s ops) k m) ->
-  executed_at (run_history_f tord bord fuel pfuel p s ops) i m ->
+  (forall k, (k < i)%nat -> ~ executed_at (run_history_f tord bord pord fuel pfuel p s ops) k m) ->
+  executed_at (run_history_f tord bord pord fuel pfuel p s ops) i m ->
   exists d, XReads I0 m d /\
     forall v, MSpecI p I0 d v -> ~ MSpecI p (fold_left apply_op (firstn (S i) ops) (fst inp), snd inp) d v.
 Proof.
   induction ops as [|o rest IH]; intros s inp L i m I0 HGI Hsc Hfuel Hst HL Hno [r [Hr Hm]].
   - destruct i; discriminate.
   - inversion Hsc as [|o0 rest0 Hsc1 Hsc2]. subst o0 rest0.
-    cbn [run_history_f] in Hr, Hfuel, Hno. destruct (step_f tord bord fuel pfuel p s o) as [s' x] eqn:Es.
+    cbn [run_history_f] in Hr, Hfuel, Hno. destruct (step_f tord bord pord fuel pfuel p s o) as [s' x] eqn:Es.
     destruct i as [|i].
     + (* executed now *)
       cbn in Hr. inversion Hr. subst x. clear Hr. cbn [firstn fold_left].
       destruct o as [sets b|n|w v|].
-      * cbn [op_in_scope] in Hsc1. subst b. rewrite (step_f_session_execs _ _ _ _ _ _ _ _ _ Es) in Hm. destruct Hm.
+      * cbn [op_in_scope] in Hsc1. subst b. rewrite (step_f_session_execs _ _ _ _ _ _ _ _ _ _ Es) in Hm. destruct Hm.
       * destruct HGI as [HB HG]. cbn [apply_op]. cbn [op_in_scope] in Hsc1. unfold step_f in Es.
         assert (Einp : (fst inp, snd inp) = inp) by (destruct inp; reflexivity). rewrite Einp.
-        destruct (query_for_o p None tord bord fuel [] CUser None n (set_log s [])) as [[[[o fr] ms] s1]| | |] eqn:Eq;
+        destruct (query_for_o p None tord bord pord fuel [] CUser None n (set_log s [])) as [[[[o fr] ms] s1]| | |] eqn:Eq;
           try (inversion Es; subst; destruct Hm).
-        destruct (root_query p tord bord rk Hrk Hproj Hkeys Htord Hbord _ _ _ _ _ _ _ _ HB Eq) as [HI1 _].
+        destruct (root_query p tord bord pord rk Hrk Hproj Hkeys Htord Hbord Hpord _ _ _ _ _ _ _ _ HB Eq) as [HI1 _].
         assert (Er : r_execs r = rev (s_log s1)) by (destruct o as [[z|]|]; inversion Es; subst; auto).
         rewrite Er in Hm. apply in_rev in Hm.
         destruct (mi_J _ _ _ _ _ _ _ HI1 m Hm) as [J|(i0 & cal & x & J1 & J2 & J3)]; [exfalso; apply Hst; exact J|].
@@ -242,10 +252,10 @@ Qed.
 Lemma just_main : forall ops s inp L i j m,
   GInv L inp s -> Forall op_in_scope ops ->
   (forall k sets b rk0, (k < i)%nat -> nth_error ops k = Some (OSession sets b) ->
-     nth_error (run_history_f tord bord fuel pfuel p s ops) k = Some rk0 -> r_out rk0 <> RFuel) ->
-  executed_at (run_history_f tord bord fuel pfuel p s ops) i m -> (j < i)%nat ->
-  executed_at (run_history_f tord bord fuel pfuel p s ops) j m ->
-  (forall k, (j < k < i)%nat -> ~ executed_at (run_history_f tord bord fuel pfuel p s ops) k m) ->
+     nth_error (run_history_f tord bord pord fuel pfuel p s ops) k = Some rk0 -> r_out rk0 <> RFuel) ->
+  executed_at (run_history_f tord bord pord fuel pfuel p s ops) i m -> (j < i)%nat ->
+  executed_at (run_history_f tord bord pord fuel pfuel p s ops) j m ->
+  (forall k, (j < k < i)%nat -> ~ executed_at (run_history_f tord bord pord fuel pfuel p s ops) k m) ->
   exists d, XReads (fold_left apply_op (firstn (S j) ops) (fst inp), snd inp) m d /\
     forall v, MSpecI p (fold_left apply_op (firstn (S j) ops) (fst inp), snd inp) d v ->
               ~ MSpecI p (fold_left apply_op (firstn (S i) ops) (fst inp), snd inp) d v.
@@ -254,7 +264,7 @@ Proof.
   - destruct Hj as [r [Hr _]]. destruct j; discriminate.
   - inversion Hsc as [|o0 rest0 Hsc1 Hsc2]. subst o0 rest0.
     destruct Hi as [ri [Hri Hmi]]. destruct Hj as [rj [Hrj Hmj]].
-    cbn [run_history_f] in Hri, Hrj, Hfuel, Hno. destruct (step_f tord bord fuel pfuel p s o) as [s' x] eqn:Es.
+    cbn [run_history_f] in Hri, Hrj, Hfuel, Hno. destruct (step_f tord bord pord fuel pfuel p s o) as [s' x] eqn:Es.
     destruct i as [|i]; [lia|]. cbn [nth_error] in Hri.
     assert (Hf0 : forall sets b, o = OSession sets b -> r_out x <> RFuel).
     { intros sets b ->. apply (Hfuel 0%nat sets b x); [lia|reflexivity|reflexivity]. }
@@ -262,7 +272,7 @@ Proof.
     rewrite (env_step_scope inp s o s' Hsc1) in HG'.
     set (inp1 := (apply_op (fst inp) o, snd inp)) in *.
     assert (Hfuel' : forall k sets b rk0, (k < i)%nat -> nth_error rest k = Some (OSession sets b) ->
-              nth_error (run_history_f tord bord fuel pfuel p s' rest) k = Some rk0 -> r_out rk0 <> RFuel).
+              nth_error (run_history_f tord bord pord fuel pfuel p s' rest) k = Some rk0 -> r_out rk0 <> RFuel).
     { intros k sets b rk0 Hk Hk1 Hk2. apply (Hfuel (S k) sets b rk0); [lia|exact Hk1|exact Hk2]. }
     cbn [firstn fold_left].
     change (fold_left apply_op (firstn i rest) (apply_op (fst inp) o), snd inp)
@@ -306,10 +316,10 @@ Proof. intros p rk. split; [apply (MInv_init p rk noE)|]. intros m i Hi. discrim
 
 Theorem model_justified_g_f : model_justified_g_statement_f.
 Proof.
-  intros tord bord fuel pfuel p ops i j m Ht Hb Hwf Hsc Hfuel. cbv zeta. intros Hi Hji Hj Hno.
+  intros tord bord pord fuel pfuel p ops i j m Ht Hb Hp Hwf Hsc Hfuel. cbv zeta. intros Hi Hji Hj Hno.
   destruct (wf_model_x_facts p (wf_model_x_of p Hwf)) as (rk & Hrk & Hproj & Hkeys).
   pose proof (wf_model_g_noext p Hwf) as Htgt.
-  destruct (just_main p tord bord rk Hrk Hproj Htgt Hkeys (order_ok_In _ Ht) (order_ok_In _ Hb) fuel pfuel ops init_state init_env (fun _ => init_env) i j m
+  destruct (just_main p tord bord pord rk Hrk Hproj Htgt Hkeys (order_ok_In _ Ht) (order_ok_In _ Hb) (order_ok_In _ Hp) fuel pfuel ops init_state init_env (fun _ => init_env) i j m
               (GInv_init p rk) Hsc Hfuel Hi Hji Hj Hno) as (d & HR & Hne).
   unfold inputs_after. cbn [fst snd init_env] in HR, Hne.
   exists d. split; [eapply XReads_MReads; eauto|].
@@ -321,11 +331,16 @@ Proof.
   - apply (msev_noext p _ _ Htgt (ERead d) v Hv2). intros d0 [<-|[]]. exact Hdk.
 Qed.
 
+Theorem model_justified_g_op : model_justified_g_statement_op.
+Proof.
+  intros tord bord pord p ops i j m Ht Hb Hp Hwf Hsc Hfuel. cbv zeta. rewrite run_history_op_is_f. intros Hi Hji Hj Hno.
+  eapply (model_justified_g_f tord bord pord fuel0 4000%nat); eauto.
+  intros k sets b rk0 Hk Hk1 Hk2. rewrite <- run_history_op_is_f in Hk2. eapply Hfuel; eauto.
+Qed.
 Theorem model_justified_g_o : model_justified_g_statement_o.
 Proof.
-  intros tord bord p ops i j m Ht Hb Hwf Hsc Hfuel. cbv zeta. rewrite run_history_o_is_f. intros Hi Hji Hj Hno.
-  eapply (model_justified_g_f tord bord fuel0 4000%nat); eauto.
-  intros k sets b rk0 Hk Hk1 Hk2. rewrite <- run_history_o_is_f in Hk2. eapply Hfuel; eauto.
+  intros tord bord p ops i j m Ht Hb Hwf Hsc Hfuel.
+  exact (model_justified_g_op tord bord ord_id p ops i j m Ht Hb ord_id_ok Hwf Hsc Hfuel).
 Qed.
 Theorem model_justified_g : model_justified_g_statement.
 Proof.
@@ -334,11 +349,12 @@ Proof.
 Qed.
 
 Theorem model_justified_f : model_justified_statement_f.
-Proof. intros tord bord fuel pfuel p ops i j m Ht Hb Hwf. apply model_justified_g_f; auto. apply wf_model_g_of. exact Hwf. Qed.
+Proof. intros tord bord pord fuel pfuel p ops i j m Ht Hb Hp Hwf. apply model_justified_g_f; auto. apply wf_model_g_of. exact Hwf. Qed.
 Theorem model_justified : model_justified_statement.
 Proof. intros p ops i j m Hwf. apply model_justified_g. apply wf_model_g_of. exact Hwf. Qed.
 
 Print Assumptions model_justified_g_f.
+Print Assumptions model_justified_g_op.
 Print Assumptions model_justified_g_o.
 Print Assumptions model_justified_g.
 Print Assumptions model_justified_f.
